@@ -1,9 +1,60 @@
+import RsslVerif.Model.Lexer
 import RsslVerif.Driver.Util
-/-! Line-protocol front end of the C10 model (stub until the model is built). -/
+/-! Line-protocol front end of the C10 model (lexer + exact decimal→binary reference). -/
 namespace RsslVerif.Driver.C10
+open RsslVerif.Gen.LexTables RsslVerif.Model.Lexer RsslVerif.Driver
+
+def hexPad (width n : Nat) : String :=
+  let rec go : Nat → Nat → List Char → List Char
+    | 0, _, acc => acc
+    | k + 1, n, acc => go k (n / 16) (hexNibble (n % 16) :: acc)
+  String.ofList (go width n [])
+
+def showFb : FollowedBy → String
+  | .token => "T"
+  | .whitespace => "W"
+
+def showTok : Token → String
+  | .simple s => s.name
+  | .id n => "Id:" ++ hex n
+  | .litInt v => "Int:" ++ toString v
+  | .litIntU32 v => "IntU32:" ++ toString v
+  | .litIntU64 v => "IntU64:" ++ toString v
+  | .litIntS64 v => "IntS64:" ++ toString v
+  | .litFloat b => "Float:" ++ hexPad 16 b
+  | .litFloat16 b => "Float16:" ++ hexPad 8 b
+  | .litFloat32 b => "Float32:" ++ hexPad 8 b
+  | .litFloat64 b => "Float64:" ++ hexPad 16 b
+  | .litString s => "String:" ++ hex s
+  | .reservedWord s => "ReservedWord:" ++ hex s
+  | .headerName s => "HeaderName:" ++ hex s
+  | .leftAngle f => "LeftAngleBracket:" ++ showFb f
+  | .rightAngle f => "RightAngleBracket:" ++ showFb f
+
+def showPTok (t : PTok) : String := showTok t.tok ++ " " ++ toString t.start ++ " " ++ toString t.stop
+
+/-- `t<0|1>i<0|1>b<N>` -/
+def parseFlags (s : String) : Option (Bool × Bool) :=
+  match s.toList with
+  | 't' :: t :: 'i' :: i :: 'b' :: _ => do
+    let t ← bit? t
+    let i ← bit? i
+    pure (t, i)
+  | _ => none
 
 def handle (op : String) (args : List String) : String :=
-  let _ := (op, args)
-  "unsupported-op"
+  match op, args with
+  | "C10.lex", [flags, hx] =>
+    match parseFlags flags, unhex? hx with
+    | some (trail, inc), some bytes =>
+      let r := readAll bytes trail true inc
+      let toks := ";".intercalate (r.1.map showPTok)
+      match r.2 with
+      | .ok () => toks
+      | .error (.lexer reason off) => toks ++ " !err " ++ reason.name ++ " " ++ toString off
+      | .error (.panic site) => toks ++ " !panic " ++ site
+      | .error .outOfFuel => toks ++ " !model-out-of-fuel"
+    | _, _ => "bad-request"
+  | _, _ => "unsupported-op"
 
 end RsslVerif.Driver.C10
